@@ -1436,8 +1436,9 @@ class _Frame(object):
             cb, fr = fr.classbody, fr.closure
         if cb is not None:
             # evaluating a class-level expression: names of the class body
-            if n in cb.attrs:
-                return self.E._class_attr(cb, n, cb.attrs[n])
+            busy = tuple(getattr(self, 'class_scope_busy', ()))
+            if n in cb.attrs and n not in busy:
+                return self.E._class_attr(cb, n, cb.attrs[n], busy=busy + (n,))
             if n in cb.methods and n not in cb.props and n not in cb.plain_props:
                 return Func(cb.methods[n], None)
         r = self.E.prog.lookup(self.module, n)
